@@ -212,6 +212,13 @@ func parseID(s string) (model.XID, bool) {
 // Dump returns the current database of the manager as model entries.
 func (in *Inst) Dump() []model.Entry { return Entries(in.Mgr.CurrentDB.VerifDump()) }
 
+// ForceDead puts the given keys into the dead-but-not-yet-reaped state (deadline one second in the past, no timer).
+func (in *Inst) ForceDead(keys ...string) {
+	for _, k := range keys {
+		in.Mgr.CurrentDB.VerifForceDeadline(k, time.Now().Unix()-1)
+	}
+}
+
 // Check runs the structural self-check of the current database.
 func (in *Inst) Check() []string { return in.Mgr.CurrentDB.VerifCheck() }
 
